@@ -369,12 +369,13 @@ fn ret_props(vars: &[u32]) -> Proj {
     let mut items = Vec::new();
     for (i, v) in vars.iter().enumerate() {
         items.push((Item::Expr(Expr::Prop(*v, 0)), 80 + 2 * i as u32));
-        items.push((Item::Expr(Expr::Fn(Func::Labels, vec![Expr::Var(*v)])), 81 + 2 * i as u32));
+        items.push((Item::Expr(Expr::Prop(*v, 1)), 81 + 2 * i as u32));
     }
     Proj { distinct: false, items, order: vec![], skip: None, limit: None }
 }
 fn ret_count() -> Proj {
-    Proj { distinct: false, items: vec![(Item::Agg(AggOp::Count, false, None), 80)], order: vec![], skip: None, limit: None }
+    // one constant row per binding (aggregates are not available after a write clause)
+    Proj { distinct: false, items: vec![(Item::Expr(Expr::Lit(Val::Int(1))), 80)], order: vec![], skip: None, limit: None }
 }
 fn count_matches(g: &Graph, np: &NPat) -> usize {
     match lit_props(&np.props) {
@@ -514,12 +515,16 @@ fn gen_stmt(r: &mut Rng, g: &Graph) -> Stmt {
         }
         9 => {
             let rel = CRel { var: None, ty: r.below(3) as u32, out: true, props: vec![] };
-            Stmt {
-                reads: vec![],
-                updates: vec![Upd::Merge(CPath { start: lit_npat(r, Some(0), 1), segs: vec![(rel, lit_npat(r, Some(1), 1))] }, vec![], vec![])],
-                ret: None,
-                shape: "merge_path",
+            let (a, b) = (lit_npat(r, Some(0), 1), lit_npat(r, Some(1), 1));
+            // the engine never binds two pattern positions to one node (known finding
+            // merge_path_node_injective): keep away from graphs where a self-loop is a match
+            let fits = |n: &GNode, np: &NPat| {
+                np.labels.iter().all(|l| n.labels.contains(l)) && lit_props(&np.props).map_or(false, |w| props_match(n, &w))
+            };
+            if g.rels.iter().any(|e| e.src == e.tgt && e.ty == rel.ty && g.nodes.iter().any(|n| n.id == e.src && fits(n, &a) && fits(n, &b))) {
+                return gen_stmt(r, g);
             }
+            Stmt { reads: vec![], updates: vec![Upd::Merge(CPath { start: a, segs: vec![(rel, b)] }, vec![], vec![])], ret: None, shape: "merge_path" }
         }
         10 | 11 => {
             let k = r.below(3) as u32;
@@ -665,6 +670,19 @@ fn replay_known(out: &mut Out) {
                 WObs::Err(e) => format!("Err({})", e),
                 WObs::Panic(p) => format!("Panic({})", p),
             }
+        ),
+    });
+    let mut st = fresh();
+    let q = "MERGE (v0:B)-[:R]->(v1:B)";
+    let before = dump(&st).nodes.len();
+    let _ = run_stmt(&engine, &mut st, q);
+    let after = dump(&st).nodes.len();
+    out.known.push(KnownReplay {
+        class: "merge_path_node_injective".into(),
+        still_fails: after != before,
+        detail: format!(
+            "{} on the fixed graph, where (3:B)-[:R]->(3) is a match with both positions on node 3: the engine goes from {} to {} nodes, openCypher creates nothing",
+            q, before, after
         ),
     });
     let mut st = fresh();
